@@ -244,6 +244,10 @@ class OptimumAcrossOptions(NativeCase):
         # load -> possibly aliasing store -> reload shapes: the position bounds must not cut off the optimum
         blocks = list(blocks) + ["PUSH 1 PUSH 0 MLOAD SWAP1 CALLDATASIZE MSTORE PUSH 0 MLOAD ADD", "PUSH 0 SLOAD PUSH 0 SLOAD ADD",
                                  "DUP1 MLOAD DUP3 DUP3 MSTORE SWAP1 MLOAD ADD SWAP1 POP", "CALLVALUE PUSH 0 MLOAD PUSH 1 CALLDATASIZE MSTORE SWAP1 MLOAD ADD", "PUSH 0 SLOAD DUP2 PUSH 0 SSTORE PUSH 0 SLOAD ADD SWAP1 POP"]
+        # a store fed by a load of an initial stack element through one more operation, with the (load, store) order dependency on top
+        # (read-modify-write; seed C07-4), with and without slack in the length bound
+        blocks += ["MLOAD ISZERO MSTORE", "SWAP1 SWAP1 MLOAD ISZERO MSTORE", "SLOAD PUSH 1 ADD SSTORE", "DUP1 SLOAD PUSH 1 ADD SWAP1 SSTORE",
+                   "DUP1 MLOAD PUSH 1 ADD SWAP1 MSTORE", "DUP1 DUP1 POP SLOAD ISZERO SWAP1 SSTORE"]
         crits = [('gas', []), ('size', ['-size']), ('length', ['-length'])]
         n = 0
         for b in blocks:
@@ -265,8 +269,15 @@ class OptimumAcrossOptions(NativeCase):
                 for crit, copt in crits:
                     found = {}
                     for opts in (OPTSETS7 if tier != 'quick' else OPTSETS7[:5]):
-                        bo, params, d = build_optimizer(copy.deepcopy(base), copt + opts)
-                        text = smt2_text(bo)
+                        try:
+                            bo, params, d = build_optimizer(copy.deepcopy(base), copt + opts)
+                            text = smt2_text(bo)
+                        except Exception as e:
+                            # no problem at all (e.g. an empty disjunction where the position bounds leave no position): the optimal
+                            # program is lost just the same - the block itself realizes its specification within the bound
+                            self.ob('a Max-SMT problem is produced', False, inputs=dict(block=b, criterion=crit, options=opts), info=repr(e))
+                            continue
+                        self.ob('a Max-SMT problem is produced', True, inputs=dict(block=b, criterion=crit, options=opts))
                         shutil.rmtree(d, ignore_errors=True)
                         o = z3.Optimize()
                         o.set('timeout', 30000)
